@@ -1,6 +1,7 @@
 (* Extraction of the executable model to OCaml (run from /verif/ocaml/gen). *)
 From Coq Require Import Extraction ExtrOcamlBasic.
-From GV Require Import Base.Util Base.NMap Circuit.Ssa Circuit.Reg Circuit.RegAlloc.
+From GV Require Import Base.Util Base.NMap Circuit.Ssa Circuit.Reg Circuit.RegAlloc
+  Builder.Builder Builder.Build Gadgets.Gadgets.
 Extraction Language OCaml.
 Set Extraction AccessOpaque.
 Separate Extraction
@@ -8,4 +9,10 @@ Separate Extraction
   Util.nthN Util.lenN
   Ssa.ssa_validate Ssa.ssa_eval Ssa.and_gates
   Reg.reg_validate Reg.reg_eval Reg.reg_eval_strict
-  RegAlloc.convert.
+  RegAlloc.convert
+  Builder.new_builder Builder.push_xor_top Builder.push_and_top Builder.push_not Builder.push_or
+  Builder.push_eq Builder.push_mux Build.build Build.panic_ok_wires
+  Gadgets.push_eq_circuit Gadgets.push_adder Gadgets.push_multiplier Gadgets.push_addition_circuit
+  Gadgets.push_negation_circuit Gadgets.push_subtraction_circuit Gadgets.push_unsigned_division_circuit
+  Gadgets.push_signed_division_circuit Gadgets.push_gt_circuit Gadgets.push_comparator_circuit
+  Gadgets.push_condswap Gadgets.push_sorter Gadgets.push_bitonic_merger Gadgets.push_bitonic_sorter.
